@@ -9,7 +9,7 @@ PROPS_MODULE = "Props.C09"
 THEOREMS = ["ws_irrelevant", "parse_canonical", "canonical_fixed_point", "id_roundtrip",
             "nuclide_fields_agree", "spelling_example"]
 REQUIRED = ["Props/C09.v"]
-TRANSLATORS = ["tr_pure", "tr_tables", "tr_unicode"]
+TRANSLATORS = ["synth_dataset", "tr_data_synth", "tr_pure", "tr_tables", "tr_unicode"]
 PARTIAL = []
 TRUSTED_BASE = [
     "Coq 8.16.1 kernel incl. vm_compute",
@@ -167,6 +167,37 @@ def correspondence(ctx):
         viol.append({"name": f"api-{len(seen)}", "found_input": True, "key": f"api:{label}:{sp}",
                      "payload": {"fails": f"{label} with the spelling {sp} of {name} {why}", "input": sp, "canonical": name, "entry": label}})
         if len(seen) >= 4:
+            break
+    # --- the same entry points bound to the synthetic data set, whose members include the states p, q, r, x
+    import corr_decay as DD
+    d2 = np.load(DD.npz_path("synth"), allow_pickle=True)
+    names2 = [str(x) for x in d2["nuclides"]]
+    prog2 = {n: [str(x) for x in pl if str(x) != "SF"] for n, pl in zip(names2, d2["progeny"])}
+    par2 = {}
+    for n, pl in prog2.items():
+        for c in pl:
+            par2.setdefault(c, []).append(n)
+    cases2 = []
+    for n in names2:
+        el, rest = n.split("-")
+        a = "".join(ch for ch in rest if ch.isdigit())
+        st = rest[len(a):]
+        ident = N.expected_id(el, int(a), st)
+        c2 = {"name": n, "spellings": N.spell_forms(el, int(a), st) + [ident], "progeny": prog2[n][:2], "parents": par2.get(n, [])[:2],
+              "fields": [ident // 10**7, int(a), st, ident]}
+        cases2.append(c2)
+    res2 = U.run_impl("impl_api_spell.py", {"ds": "synth", "cases": cases2}, timeout=3000)
+    streams["api_spellings_synth"] = {"cases": res2["cases"], "impl_wrong": len(res2["bad"]),
+                                      "what": "the same entry points bound to the synthetic data set (members in the states m n p q r x): every spelling and id "
+                                              "resolves to the canonical member; Z, A, state, id equal the values written in the name (id computed independently)"}
+    seen2 = set()
+    for label, sp, name, why in res2["bad"]:
+        if label in seen2:
+            continue
+        seen2.add(label)
+        viol.append({"name": f"api-synth-{len(seen2)}", "found_input": True, "key": f"api-synth:{label}:{sp}",
+                     "payload": {"fails": f"{label} with the spelling {sp} of {name} (synthetic data set) {why}", "input": sp, "canonical": name, "entry": label}})
+        if len(seen2) >= 4:
             break
     return {"streams": streams, "violations": viol, "samples": samples, "notes": notes}
 
